@@ -25,34 +25,35 @@ def run_impl(exe, cases, timeout=1200, env=None):
     return rc, parse_answers(out), err
 
 
-def run_impl_isolated(exe, cases, timeout=60, env=None, chunk=None):
-    """run cases so that a crash / sanitizer abort on one case does not hide the others:
-    first all at once; if the process dies, bisect down to single cases.
-    returns dict id -> answer (crashed cases get 'CRASH rc=<rc> <first stderr line>')"""
+def run_impl_isolated(exe, cases, timeout=None, env=None, max_bad=4):
+    """run cases so that a crash / sanitizer abort / hang on one case does not hide the others:
+    all at once; when the process dies or hangs, the first unanswered case is the culprit: it is
+    marked and the run continues after it.  After max_bad culprits the rest is marked SKIPPED.
+    returns dict id -> answer ('CRASH rc=.. <reason>', 'TIMEOUT', 'SKIPPED')"""
     answers = {}
-
-    def go(cs):
-        if not cs:
-            return
-        rc, ans, err = run_impl(exe, cs, timeout=max(timeout, len(cs) // 50), env=env)
-        got = {c.split(' ', 1)[0] for c in cs} & set(ans)
-        answers.update({k: v for k, v in ans.items()})
-        if rc == 0 and len(got) == len(cs):
-            return
-        missing = [c for c in cs if c.split(' ', 1)[0] not in ans]
+    todo = list(cases)
+    bad = 0
+    while todo:
+        t = timeout or (10 + len(todo) // 10000)
+        rc, ans, err = run_impl(exe, todo, timeout=t, env=env)
+        answers.update(ans)
+        missing = [c for c in todo if c.split(' ', 1)[0] not in ans]
         if not missing:
-            return
-        if len(cs) == 1:
+            break
+        cid = missing[0].split(' ', 1)[0]
+        if rc == -9:
+            answers[cid] = 'TIMEOUT'
+        else:
             first = ''
             for l in err.split('\n'):
-                if 'runtime error' in l or 'ERROR' in l or 'Assertion' in l or 'terminate' in l or 'TIMEOUT' in l:
+                if any(k in l for k in ('runtime error', 'ERROR', 'Assertion', 'terminate', 'what()')):
                     first = l.strip()
                     break
-            answers[cs[0].split(' ', 1)[0]] = f'CRASH rc={rc} {first[:300]}'
-            return
-        # the first missing case is the one that crashed; isolate it and continue with the rest
-        go([missing[0]])
-        go(missing[1:])
-
-    go(list(cases))
+            answers[cid] = f'CRASH rc={rc} {first[:300]}'
+        bad += 1
+        todo = missing[1:]
+        if bad >= max_bad:
+            for c in todo:
+                answers[c.split(' ', 1)[0]] = 'SKIPPED'
+            break
     return answers
